@@ -78,6 +78,9 @@ var registry = []*HarnessSpec{
 	{Prop: "C09", Name: "zzH09a", Pkg: pkgCorerad, Tier: "quick", Params: map[string]int{"k": 8, "k@thorough": 12}, Bounds: "0..k-1 consecutive messages with any hop limit != 255 followed by a valid one (k=8, thorough 12)"},
 	{Prop: "C10", Name: "zzH10c", Pkg: pkgCorerad, Tier: "quick", Bounds: "0..6 read timeouts followed by a message, a non-timeout net.Error or another error"},
 	{Prop: "C18", Name: "zzH18", Pkg: pkgCorerad, Tier: "quick", Bounds: "one message: RS/NS/NA or an RA with symbolic header, 0..2 prefix options (all fields symbolic, whole-second lifetimes incl. 0 and 2^32-1 s) and an unknown option; receipt instant any wall-clock ns value; sender an opaque string"},
+	{Prop: "C12", Name: "zzH12wire", Pkg: pkgCorerad, Extra: []string{pkgConfig}, Tier: "quick", Bounds: "one accepted advertising interface with the stanzas of one kind at a time (header fields; static prefix; static route; RDNSS + DNSSL; MTU + captive portal + PREF64), all durations and header fields symbolic (real parser), forwarding on/off; ndp.MarshalMessage then ndp.ParseMessage through their real bodies"},
+	{Prop: "C12", Name: "zzH12wireDep", Pkg: pkgCorerad, Extra: []string{pkgConfig}, Tier: "quick", MonoTime: true, Bounds: "one deprecated prefix or one deprecated route, lifetimes symbolic (real parser), arbitrary epoch <= now (monotonic readings)"},
+	{Prop: "C12", Name: "zzH12oracle", Pkg: pkgCorerad, Tier: "quick", Bounds: "the harnesses' definition of a lifetime on the wire against ndp's real encoder and decoder: prefix valid / preferred, route, RDNSS, DNSSL lifetime, any ns value in [0, Infinity]"},
 	{Prop: "C12", Name: "zzH12ra", Pkg: pkgCorerad, Tier: "quick", Bounds: "all header fields of both RAs symbolic"},
 	{Prop: "C12", Name: "zzH12mtu", Pkg: pkgCorerad, Tier: "quick", Bounds: "MTU option present/absent per side, values symbolic, distinct objects"},
 	{Prop: "C12", Name: "zzH12captive", Pkg: pkgCorerad, Tier: "quick", Bounds: "captive-portal option present/absent per side, equal or different URI, distinct objects"},
